@@ -242,6 +242,7 @@ def run_case(case, work, rec):
         return
     poison.set_poison(np.nan)
     md = Mandoline(path, fields=["rnd", "grid_level"], serial=True, verbose=0)
+    held = []       # (returned array, copy taken at once): later slices must not change earlier results
     for _ in range(4):
         n = rng.randrange(3)
         pos = m.geo_low[n] + (m.geo_high[n] - m.geo_low[n]) * rng.random()
@@ -252,6 +253,7 @@ def run_case(case, work, rec):
             a = md.slice(normal=n, pos=pos, fformat="return")
             b = Mandoline(path, fields=["rnd", "grid_level"], serial=True, verbose=0).slice(normal=n, pos=pos, fformat="return")
             rec.count("reuse")
+            held.append((a["rnd"], np.array(a["rnd"], copy=True), n, pos))
             if refparse.biteq(a["rnd"], b["rnd"]) and refparse.biteq(a["grid_level"], b["grid_level"]):
                 rec.ok(key, True)
             else:
@@ -259,3 +261,7 @@ def run_case(case, work, rec):
         except Exception as e:
             rec.violation(f"reused Mandoline instance raised {type(e).__name__}: normal={'xyz'[n]} pos={pos!r}", key=key,
                           witness={"exc": repr(e)[:300]})
+    for arr, cp, n, pos in held:
+        if not refparse.biteq(arr, cp):
+            rec.violation(f"a slice returned earlier changed while later slices were taken with the same instance: "
+                          f"normal={'xyz'[n]} pos={pos!r}", key=(digest, "alias", n, pos))
